@@ -9,9 +9,17 @@
 (*             x error modes x 0..1 arguments                                  *)
 (*  "invalid"  the invalid shapes and keyword-like names, called with 0..2     *)
 (*             arguments or not called                                         *)
-(*  "small"    the union of the three families above                          *)
+(*  "strform"  string and []byte parameters (one of either, or both in either   *)
+(*             order receiving the SAME value), plain and variadic, x every    *)
+(*             menu value (non-integral, huge, nan, inf, -inf included) x      *)
+(*             every CONVFMT setting                                           *)
+(*  "dispatch" the Funcs table {aa, fn, mm, zz} with an AWK function shadowing *)
+(*             none / the first / a middle / the last name, the program        *)
+(*             calling the other Go functions and then fn                      *)
+(*  "small"    the union of the five families above                           *)
 (*  "wide"     built slot by slot (for -simulate): 0..3 parameters over all    *)
-(*             kinds, variadic or not, any result mode, 0..n+2 arguments       *)
+(*             kinds, variadic or not, any result mode, 0..n+2 arguments, any  *)
+(*             CONVFMT setting, any shadowed name                              *)
 EXTENDS NativeMachine, Json
 
 CONSTANTS Family
@@ -22,30 +30,47 @@ ArgLists(n) == IF n = 0 THEN {<<>>} ELSE ArgLists(n - 1) \cup {Append(a, v) : a 
 EchoModes(params, variadic) == {rm \in ResModes(params, variadic) : rm.res \in {"none", "echo"}}
 ConstModes(params, variadic) == {rm \in ResModes(params, variadic) : rm.res = "const"}
 
+Plain(sg, a, cl) == [sig |-> sg, args |-> a, called |-> cl, shadow |-> "none", cf |-> DefaultCf]
 CasesArgs ==
-  UNION {UNION {{[sig |-> MkSig(<<k>>, vr, rm), args |-> a, called |-> TRUE] : rm \in EchoModes(<<k>>, vr), a \in ArgLists(2)}
+  UNION {UNION {{Plain(MkSig(<<k>>, vr, rm), a, TRUE) : rm \in EchoModes(<<k>>, vr), a \in ArgLists(2)}
                 : vr \in {FALSE, TRUE}} : k \in Kinds}
 CasesResults ==
-  UNION {{[sig |-> MkSig(ps, FALSE, rm), args |-> a, called |-> TRUE] : rm \in ConstModes(ps, FALSE), a \in ArgLists(1)}
+  UNION {{Plain(MkSig(ps, FALSE, rm), a, TRUE) : rm \in ConstModes(ps, FALSE), a \in ArgLists(1)}
          : ps \in {<<>>, <<"int">>}}
 CasesInvalid ==
-  {[sig |-> InvalidSig(s), args |-> a, called |-> TRUE] : s \in InvalidShapes, a \in {<<>>, <<"three">>, <<"three", "abc">>}}
-  \cup {[sig |-> InvalidSig(s), args |-> <<>>, called |-> FALSE] : s \in InvalidShapes}
-  \cup {[sig |-> KeywordSig(n), args |-> <<>>, called |-> FALSE] : n \in KeywordNames}
+  {Plain(InvalidSig(s), a, TRUE) : s \in InvalidShapes, a \in {<<>>, <<"three">>, <<"three", "abc">>}}
+  \cup {Plain(InvalidSig(s), <<>>, FALSE) : s \in InvalidShapes}
+  \cup {Plain(KeywordSig(n), <<>>, FALSE) : n \in KeywordNames}
+\* string kinds x every value x every CONVFMT; two parameters receive the same value
+StrModes(ps, vr) == {rm \in EchoModes(ps, vr) : rm.err = "none"}
+CasesStrForm ==
+  UNION {UNION {{[sig |-> MkSig(ps, vr, rm), args |-> [j \in 1..Len(ps) |-> v], called |-> TRUE, shadow |-> "none", cf |-> c]
+                 : rm \in StrModes(ps, vr), v \in Values, c \in ConvFmts}
+                : vr \in {FALSE, TRUE}}
+         : ps \in {<<"string">>, <<"bytes">>, <<"string", "bytes">>, <<"bytes", "string">>}}
+\* an AWK function shadows one name of the Funcs table; the other Go functions and then fn are called
+DispatchModes(ps) == {rm \in ResModes(ps, FALSE) : rm.res # "const" \/ rm.rk = "int"}
+CasesDispatch ==
+  UNION {{[sig |-> MkSig(ps, FALSE, rm), args |-> a, called |-> TRUE, shadow |-> sh, cf |-> DefaultCf]
+          : rm \in DispatchModes(ps), a \in {b \in {<<>>, <<"three">>, <<"abc">>} : Len(b) <= Len(ps)}, sh \in Shadows}
+         : ps \in {<<>>, <<"int">>, <<"string", "int">>}}
 
-Export(c) == [fam |-> "native", sig |-> c.sig, args |-> c.args, called |-> c.called,
-              outcome |-> Outcome(c.sig, c.args, c.called)]
+Export(c) == [fam |-> "native", sig |-> c.sig, args |-> c.args, called |-> c.called, shadow |-> c.shadow, cf |-> c.cf,
+              outcome |-> OutcomeFull(c.sig, c.args, c.called, c.shadow, c.cf)]
 
 \* builder state for the "wide" family
 VARIABLES b, emitted
-gvars == <<b, emitted, phase, sig, args, called, recv, printed>>
+gvars == <<b, emitted, phase, sig, args, called, shadow, cf, recv, printed, ran>>
 
 Init ==
   /\ emitted = FALSE
   /\ phase = "start" /\ sig = <<>> /\ args = <<>> /\ called = TRUE /\ recv = <<>> /\ printed = Unspecified
-  /\ IF Family = "wide" THEN b = [stage |-> "np", params |-> <<>>, np |-> 0, variadic |-> FALSE, sig |-> <<>>, nargs |-> 0, args |-> <<>>]
+  /\ shadow = "none" /\ cf = DefaultCf /\ ran = <<>>
+  /\ IF Family = "wide" THEN b = [stage |-> "np", params |-> <<>>, np |-> 0, variadic |-> FALSE, sig |-> <<>>, nargs |-> 0, args |-> <<>>,
+                                  shadow |-> "none", cf |-> DefaultCf]
      ELSE b \in (CASE Family = "args" -> CasesArgs [] Family = "results" -> CasesResults [] Family = "invalid" -> CasesInvalid
-                    [] Family = "small" -> CasesArgs \cup CasesResults \cup CasesInvalid)
+                    [] Family = "strform" -> CasesStrForm [] Family = "dispatch" -> CasesDispatch
+                    [] Family = "small" -> CasesArgs \cup CasesResults \cup CasesInvalid \cup CasesStrForm \cup CasesDispatch)
 
 Grow ==
   /\ Family = "wide" /\ ~emitted
@@ -54,17 +79,19 @@ Grow ==
           b' = [b EXCEPT !.params = Append(@, k), !.stage = IF Len(b.params) + 1 = b.np THEN "var" ELSE "kinds"]
      \/ b.stage = "var" /\ \E vr \in {FALSE, TRUE} : b' = [b EXCEPT !.variadic = vr, !.stage = "res"]
      \/ b.stage = "res" /\ \E rm \in ResModes(b.params, b.variadic) :
-          b' = [b EXCEPT !.sig = MkSig(b.params, b.variadic, rm), !.stage = "nargs"]
+          b' = [b EXCEPT !.sig = MkSig(b.params, b.variadic, rm), !.stage = "env"]
+     \/ b.stage = "env" /\ \E sh \in Shadows, c \in ConvFmts : b' = [b EXCEPT !.shadow = sh, !.cf = c, !.stage = "nargs"]
      \/ b.stage = "nargs" /\ \E n \in 0..(b.np + 2) : b' = [b EXCEPT !.nargs = n, !.stage = IF n = 0 THEN "done" ELSE "args"]
      \/ b.stage = "args" /\ \E v \in Values :
           b' = [b EXCEPT !.args = Append(@, v), !.stage = IF Len(b.args) + 1 = b.nargs THEN "done" ELSE "args"]
-  /\ UNCHANGED <<emitted, phase, sig, args, called, recv, printed>>
+  /\ UNCHANGED <<emitted, phase, sig, args, called, shadow, cf, recv, printed, ran>>
 
 Emit ==
   /\ ~emitted /\ (Family = "wide" => b.stage = "done")
-  /\ PrintT(ToJson(Export(IF Family = "wide" THEN [sig |-> b.sig, args |-> b.args, called |-> TRUE] ELSE b)))
+  /\ PrintT(ToJson(Export(IF Family = "wide" THEN [sig |-> b.sig, args |-> b.args, called |-> TRUE, shadow |-> b.shadow, cf |-> b.cf]
+                           ELSE b)))
   /\ emitted' = TRUE
-  /\ UNCHANGED <<b, phase, sig, args, called, recv, printed>>
+  /\ UNCHANGED <<b, phase, sig, args, called, shadow, cf, recv, printed, ran>>
 Next == Grow \/ Emit
 Spec == Init /\ [][Next]_gvars
 =============================================================================
